@@ -97,6 +97,33 @@ static void graph_case(const G &g) {
     } catch (std::exception &e) { r = "X"; }
     o << " | " << r;
   }
+  // structure id of the labelled graph (node contents as csg::BeadStructure builds them), and of a renumbered copy built in reverse order
+  {
+    static const char *names[] = {"C", "H", "O"};
+    static const double masses[] = {12.0, 1.0, 16.0};
+    auto mkl = [&](bool rev, Index shift) {
+      std::vector<Edge> es;
+      if (!rev) for (auto &e : g.edges) es.push_back(Edge(g.ids[e.first] + shift, g.ids[e.second] + shift));
+      else for (auto it = g.edges.rbegin(); it != g.edges.rend(); ++it) es.push_back(Edge(g.ids[it->second] + shift, g.ids[it->first] + shift));
+      std::unordered_map<Index, GraphNode> nodes;
+      for (size_t q = 0; q < g.ids.size(); q++) {
+        size_t i = rev ? g.ids.size() - 1 - q : q;
+        GraphNode gn;
+        std::unordered_map<std::string, double> a1; a1["Mass"] = masses[g.attr[i]];
+        std::unordered_map<std::string, std::string> a2; a2["Name"] = names[g.attr[i]];
+        gn.setDouble(a1); gn.setStr(a2);
+        nodes[g.ids[i] + shift] = gn;
+      }
+      return Graph(es, nodes);
+    };
+    o << " | S";
+    try {
+      Graph a = mkl(false, 0), b = mkl(true, 1000);
+      for (Index v : g.ids) o << " " << hexs(a.getNode(v).getStringId());
+      std::string ida = findStructureId<GraphDistVisitor>(a), idb = findStructureId<GraphDistVisitor>(b);
+      o << " " << hexs(ida) << " " << hexs(idb);
+    } catch (std::exception &) { o << " X"; }
+  }
   // structure equivalence under relabelling / insertion order, and separation by attributes
   {
     std::vector<int> fwd, rev;
